@@ -272,3 +272,77 @@ Example reencode_examples :
             (GColl XY [GPoint (MkPoint XY (Some (Build_vtx 4607182418800017408 4611686018427387904 0 0)));
                        GLine (MkLine XY [])])) = true.
 Proof. vm_compute. auto. Qed.
+
+(* ================================================================== "error or VALID value"
+   The converse of the round trip (proofs in Proofs/WKB_converse.v): whatever the WKB decoder
+   accepts - from any string of bytes, foreign and mixed byte orders, members of other coordinate
+   types included - is a well-formed value of the model (one coordinates type at every node,
+   unused Z/M zero, 64-bit ordinates, counts below 2^32, no NaN in X/Y of a full point), so it is
+   in the domain of the round-trip theorem of C04: its canonical re-encoding, and its encoding
+   under any other byte-order choice, decodes to the same value. *)
+From SF Require Import Proofs.WKB_converse.
+
+Theorem wkb_decoded_is_wellformed : forall (bs : list N) (g : geomT N) (r : list N),
+  bytes_ok bs -> WKB.dec bs = Ok (g, r) -> wf_wkb g = true /\ bytes_ok r.
+Proof. exact wkb_dec_wf_lemma. Qed.
+Print Assumptions wkb_decoded_is_wellformed.
+
+Theorem wkb_dec_enc_dec : forall (bs : list N) (g : geomT N) (r : list N),
+  bytes_ok bs -> WKB.dec bs = Ok (g, r) ->
+  forall (bo : list nat -> endian) (r' : list N), WKB.dec (enc_bo bo g ++ r') = Ok (g, r').
+Proof. exact wkb_dec_enc_dec_lemma. Qed.
+Print Assumptions wkb_dec_enc_dec.
+
+Theorem wkb_reencode_fixpoint : forall (bs : list N) (g : geomT N) (r : list N),
+  bytes_ok bs -> WKB.dec bs = Ok (g, r) -> WKB.dec (enc g) = Ok (g, []).
+Proof. exact wkb_reencode_fixpoint_lemma. Qed.
+Print Assumptions wkb_reencode_fixpoint.
+
+Theorem wkb_canonical : forall (bs bs' : list N) (g g' : geomT N) (r r' : list N),
+  bytes_ok bs -> bytes_ok bs' -> WKB.dec bs = Ok (g, r) -> WKB.dec bs' = Ok (g', r') ->
+  (enc g = enc g' <-> g = g').
+Proof. exact wkb_canonical_lemma. Qed.
+Print Assumptions wkb_canonical.
+
+(* the hypothesis bytes_ok is needed (and is all that is needed): a list element of 256 in the top
+   byte of X gives the "ordinate" 2^64, which is not a 64-bit pattern *)
+Example bytes_ok_needed :
+  exists g r, WKB.dec [1; 1;0;0;0; 0;0;0;0;0;0;0;256; 0;0;0;0;0;0;0;64] = Ok (g, r) /\ wf_wkb g = false.
+Proof. eexists. eexists. split; [vm_compute; reflexivity|vm_compute; reflexivity]. Qed.
+(* a foreign document: big-endian MultiPoint declared XY whose member is a little-endian Point Z.
+   It is accepted, the value is normalised by the constructor (the members' type wins: the result
+   is a MultiPoint Z), and its canonical encoding (little-endian, header Z) is a different
+   document that decodes to the same value *)
+Example foreign_document_normalised :
+  let bs := [0; 0;0;0;4; 0;0;0;1;  1; 233;3;0;0; 0;0;0;0;0;0;240;63; 0;0;0;0;0;0;0;64; 0;0;0;0;0;0;8;64] in
+  exists g, WKB.dec bs = Ok (g, []) /\ wf_wkb g = true /\ geom_ct g = XYZ /\
+            enc g <> bs /\ WKB.dec (enc g) = Ok (g, []).
+Proof.
+  eexists. split; [vm_compute; reflexivity|]. split; [vm_compute; reflexivity|].
+  split; [reflexivity|]. split; [vm_compute; discriminate|vm_compute; reflexivity].
+Qed.
+
+(* The decoder accepts nothing but encodings (proof in Proofs/WKB_image.v): the consumed prefix of
+   every accepted byte string is exactly enc_bo bo g' for some per-element byte-order choice bo and
+   some document tree g' (nodes as written: declared coordinate types, members of any coordinate
+   type, NaN/NaN points with any payload), and the value returned is the constructors'
+   normalisation of g' (WKB_image.normalise: NaN/NaN point -> empty point, NewPolygon,
+   NewMultiPoint, ..., NewGeometryCollection applied bottom-up). *)
+From SF Require Proofs.WKB_image.
+
+Theorem wkb_dec_is_some_encoding : forall (bs : list N) (g : geomT N) (r : list N),
+  bytes_ok bs -> WKB.dec bs = Ok (g, r) ->
+  exists (bo : list nat -> endian) (g' : geomT N),
+    bs = enc_bo bo g' ++ r /\ g = WKB_image.normalise g'.
+Proof. exact WKB_image.wkb_dec_is_some_encoding_lemma. Qed.
+Print Assumptions wkb_dec_is_some_encoding.
+
+(* normalisation is not the identity: the raw tree of the foreign document above is a MultiPoint
+   declared XY with a Point Z member; its normal form is a MultiPoint Z *)
+Example normalise_example :
+  WKB_image.normalise
+    (GMPoint XY [MkPoint XYZ (Some (Build_vtx 4607182418800017408 4611686018427387904 4613937818241073152 0))])
+  = GMPoint XYZ [MkPoint XYZ (Some (Build_vtx 4607182418800017408 4611686018427387904 4613937818241073152 0))]
+  /\ WKB_image.normalise (GPoint (MkPoint XY (Some (Build_vtx go_nan 9221120237041090562 0 0))))
+     = GPoint (MkPoint XY None).
+Proof. vm_compute. auto. Qed.
